@@ -255,7 +255,7 @@ CHECKS = {
         "engine": "E3 in-process server (real handlers, interceptor, generated router/codec, /usage route)",
         "technique": "deterministic simulation: seeded multi-tenant RPC histories against the real server run in-process on a paused runtime and simulated clock; per-tenant reference models, ground-truth inspection after every step, and non-interference against a second simulated run of each tenant's own projection",
         "rule": "history = 6-32 steps (10-60 thorough) by 2-3 tenants over local ids 1..4 (+0, u32::MAX, u32::MAX+1, 2^32+1), 6 shared vectors, namespaces {'', blue, red}, metadata with spoofed __tenant_id__/__tenant_idx__/__namespace__ in 1/3 of writes, "
-                "filters from NOT/OR/reserved-key/empty-AND/empty-OR shapes + the C11 generator, repeated identical searches (cache reuse), calls with no key / unknown key / malformed key / disabled tenant's key / Bearer form, /usage (self, scope=all), restarts on persistent configs; "
+                "filters from NOT/OR/reserved-key/empty-AND/empty-OR shapes + the C11 generator, repeated identical searches (cache reuse), calls with no key / unknown key / malformed key / disabled tenant's key / Bearer form, /usage (self, scope=all), restarts on persistent configs; in a third of the runs one tenant has a second enabled key (rotation) used for a quarter of its calls, and in half of the persistent runs the last tenant is added to the key file only at the first restart (its earlier calls must be refused, its index must not collide); "
                 "server config drawn per run (metric, L1a capacity 1/2/8, query-cache capacity 1/4/32, hot tier 2-6 soft, shared index capacity 400/16/10: with the small ones the index fills up, tombstone compaction runs, and writes refused for lack of room are accepted as refusals without effect; the alone-vs-interleaved comparison is skipped for histories with such refusals). Judged per step: (1) point operations (Insert, BulkInsert, BulkLoadHnsw, Delete, UpdateMetadata, Query, BulkQuery, BatchDelete ids/filter) "
                 "equal the acting tenant's own sequential model, which is built from that tenant's requests only; (2) every Search/BulkSearch item is a live own document satisfying namespace selector and filter, with exactly the owner's public metadata and vector, no reserved key, total_found within the own matches; "
                 "(3) after every step the canonical documents (cold-tier scan, full metadata) equal the union of the tenant models with server-owned keys = owner identity and insert-time namespace; (4) calls without a valid enabled key answer UNAUTHENTICATED with no body and change nothing; /usage: 401 without key, 403 for scope=all, "
@@ -264,7 +264,7 @@ CHECKS = {
         "assumptions": ["the auth interceptor closure, start-up recount and recover-or-fresh decision are copies of main() (vsim/src/server_harness.rs); a change to those lines in main() is not seen",
                         "TLS, HTTP/2 framing and the TCP listener are not exercised: requests enter at the tower Service boundary with hand-framed gRPC messages",
                         "whether a filter on a reserved key may select the caller's own documents is not judged (the model evaluates filters over the full server-side metadata of the caller's own documents)"],
-        "expected_probes": ["same_local_id_live_for_two_tenants", "insert_with_spoofed_reserved_key", "update_with_spoofed_reserved_key_applied", "search_served_from_query_cache", "call_without_valid_enabled_key", "runs_with_restart", "search_differs_within_tie_freedom", "small_index_capacity_runs", "histories_with_index_full_refusals"],
+        "expected_probes": ["same_local_id_live_for_two_tenants", "insert_with_spoofed_reserved_key", "update_with_spoofed_reserved_key_applied", "search_served_from_query_cache", "call_without_valid_enabled_key", "runs_with_restart", "search_differs_within_tie_freedom", "small_index_capacity_runs", "histories_with_index_full_refusals", "runs_with_a_rotated_second_key", "runs_with_a_tenant_added_at_restart"],
         "tiers": {"quick": {"runs_per_worker": 1000000, "budget_s": 40}, "thorough": {"runs_per_worker": 10000000, "budget_s": 900}},
         "level_text": "Seeded exploration of multi-tenant RPC histories through the real in-process server; isolation judged by per-tenant models, canonical ground truth after each step and alone-vs-interleaved non-interference.",
         "level_note": "trusted base: prost encode/decode of the harness, per-tenant model of the documented point-operation semantics, C11 reference filter semantics, own-only search reference (counts only)",
